@@ -543,11 +543,11 @@ def sweepHold (res : Rat) : List Rat → List (Option (List Rat)) → Nat → Sw
 /-- an entry present in `a` is different in `b`, looking at the registers `g` and channels `< nch` -/
 def entryChanged (res : Rat) (nch : Nat) (g : List (Nat × List Rat)) (a b : Sweep) : Bool :=
   g.any (fun p =>
-    let k := depKey res p.2
-    (a.depStates p.1 k).isSome && a.depStates p.1 k != b.depStates p.1 k) ||
+    (a.depStates p.1 (depKey res p.2)).isSome &&
+      decide (a.depStates p.1 (depKey res p.2) ≠ b.depStates p.1 (depKey res p.2))) ||
   (List.range nch).any (fun c =>
-    ((a.activeDep c).isSome && a.activeDep c != b.activeDep c) ||
-    ((a.plainVoltage c).isSome && a.plainVoltage c != b.plainVoltage c))
+    ((a.activeDep c).isSome && decide (a.activeDep c ≠ b.activeDep c)) ||
+    ((a.plainVoltage c).isSome && decide (a.plainVoltage c ≠ b.plainVoltage c)))
 
 mutual
 def sweep (res : Rat) (nch : Nat) : Node → Sweep → Sweep
@@ -576,9 +576,11 @@ end
 def inPF22 (res : Rat) (nch : Nat) (prog : List Node) : Bool :=
   (sweepList res nch prog Sweep.init).flagged
 
-/-- the fragment for which `vm_translate_partial` is proved -/
+/-- the fragment for which `vm_translate_partial` is proved: programs of the shape the builder produces,
+outside the PF-22 class (in particular every program without repetition nodes), with faithful keys
+(outside the depth-clash and resolution-collision classes) and outside the zero-key class -/
 def inFragment (res : Rat) (nch : Nat) (prog : List Node) : Bool :=
-  !hasRepList prog && wellFormedList nch 0 prog &&
+  !inPF22 res nch prog && wellFormedList nch 0 prog &&
     keyInj res (touchesList prog) && separated res (touchesList prog) (plainsList prog)
 
 /-! ## Line protocol -/
